@@ -23,8 +23,12 @@ def seeded_table():
         res = d.get("results", {})
         caught = ", ".join(sorted(k for k, r in res.items() if r.get("rc") == 1)) or "**none**"
         missed = ", ".join(sorted(k for k, r in res.items() if r.get("rc") == 0))
+        if d.get("obsolete"):
+            caught = "— (obsolete: no longer a violation)"
+            missed = ""
         rows.append("| %s | %s | %s — *needs:* %s | %s | %s%s |" % (
-            os.path.basename(os.path.dirname(f)), d.get("property"), what[:260], need[:260], "yes" if ok else "see meta.json",
+            os.path.basename(os.path.dirname(f)), d.get("property"), what[:260], need[:260],
+            "obsolete" if d.get("obsolete") else "yes" if ok else "see meta.json",
             caught, (" (ran, silent: %s)" % missed) if missed else ""))
     return "\n".join(rows)
 
